@@ -10,6 +10,7 @@
   over them on every run.
 -/
 import Avra.Props.C09
+import Avra.Props.C05
 namespace Avra.Props.C05pp
 open Avra Avra.Model Avra.Peg Avra.Lemmas.Fuel Avra.Props.C14 Avra.Props.C09
 set_option linter.unusedSimpArgs false
@@ -674,6 +675,29 @@ theorem atomEnd_nil : AtomEnd [] := by intro y hy; simp at hy
 theorem parse_print_whole (e : Expr) (h : Wf e) : expr (render 0 e) = .ok e [] := by
   have := parse_print e h [] atomEnd_nil (endAt_nil 0)
   simpa using this
+
+/-- well-formed expressions have their constants in range -/
+theorem wf_constsOk (e : Expr) (h : Wf e) : Avra.Props.C05.constsOk e := by
+  induction h with
+  | ident s _ => trivial
+  | const v n hv hn =>
+    simp only [Avra.Props.C05.constsOk, inI64, i64Min, i64Max, Bool.and_eq_true, decide_eq_true_eq]
+    subst hv
+    have h63 : n < 9223372036854775808 := by simpa using hn
+    constructor <;> (apply decide_eq_true; omega)
+  | func name a _ _ ih => exact ⟨trivial, ih⟩
+  | bin op l r _ _ ihl ihr => exact ⟨ihl, ihr⟩
+  | un u e _ ih => exact ih
+
+/-- **C05 in one statement**: the text of a tree written with only the parentheses the operator
+    table requires is read as that tree, and the tree evaluates — in every environment of i64
+    values or failures — to exactly the value the documented operator table gives it (and fails
+    exactly where the table says the build must fail) -/
+theorem rendered_text_has_the_table_value (sym : Str → EvalRes) (hs : ∀ n v, sym n = .ok v → inI64 v = true)
+    (e : Expr) (h : Wf e) :
+    expr (render 0 e) = .ok e [] ∧
+      Avra.Props.C05.toOpt (evalWith sym e) = Avra.Spec.eval (fun n => Avra.Props.C05.toOpt (sym n)) e :=
+  ⟨parse_print_whole e h, (Avra.Props.C05.eval_eq_spec sym hs e (wf_constsOk e h)).1⟩
 
 /-! non-vacuity: the renderer puts parentheses where the table requires them and nowhere else -/
 example : render 0 (.bin .mul (.bin .add (.ident ['a']) (.const 2)) (.un .minus (.bin .shl (.ident ['b']) (.const 1)))) =
